@@ -38,6 +38,7 @@ import ZoektModel.C01.FullLemmas
 import ZoektModel.C01.WordLemmas
 import ZoektModel.C01.SelectLemmas
 import ZoektModel.C01.CaseLemmas
+import ZoektModel.C01.RegexBridge
 namespace ZoektModel.C01
 
 /-- **one `evalMatchTree` call** on a consistent tree: the tree stays consistent, its plain value is unchanged, a decided
@@ -597,6 +598,74 @@ example : Cyc exFold 97 2 ∧ Cyc exFold 98 2 ∧ Cyc exFold 45 1 := by
     subst this; decide
   · intro j h1 h2; omega
 example : generateCase exFold [97, 98, 45] 300 = [[65, 98, 45], [97, 66, 45], [65, 66, 45], [97, 98, 45]] := by decide
+
+/-- **`extract_superset`** (L9): for every regexp syntax tree (all `regexp/syntax` operators; `ci` = matched
+    case-insensitively) and every match `s[i, j)` under the denotational semantics `Rx.M`, the literal tree that
+    `regexpToMatchTreeRecursive` extracts is satisfied INSIDE the match (every required literal occurs there; a
+    same-line node inside a newline-free part), and `singleLine` extractions only come from matches without a newline -/
+theorem extract_superset (ci : Bool) (s : List Nat) (r : Rx) (i j : Nat) (h : r.M ci s i j) :
+    (i ≤ j ∧ j ≤ s.length) ∧ (r.extract (!ci)).tree.inSpan s i j ∧
+    ((r.extract (!ci)).singleLine = true → NoNL s i j) :=
+  Rx.ext_ok ci s r i j h
+
+/-- **`extract_superset_doc`**: if the regexp matches somewhere in the content of document `d`, the extracted literal
+    tree is true on `d` in the engine's sense (substring leaves by occurrence, `andLine` nodes incl. their same-line
+    condition) -/
+theorem extract_superset_on_doc (ctx : Ctx) (d : Nat) (ci : Bool) (r : Rx)
+    (h : r.matchesText ci (ctx.text false d)) : (r.extract (!ci)).tree.semB ctx d = true :=
+  extract_superset_doc ctx d ci r h
+
+/-- **`prefilter_sound_thm`**: hence the match tree carrying that literal tree (iterators attached) is true on every
+    document the regexp matches: the trigram pre-filter never removes a matching document -/
+theorem prefilter_sound_thm (ctx : Ctx) (L d : Nat) (ci : Bool) (r : Rx) (P : MT)
+    (hc : Corr (r.extract (!ci)).tree P) (hok : P.OkF ctx L) (hm : r.matchesText ci (ctx.text false d)) :
+    semF ctx d P = true :=
+  prefilter_sound ctx L d ci r P hc hok hm
+
+/-- **`C01_search_exact_regexp`**: for the tree `newMatchTree` builds for a (content) regexp atom —
+    `and[regexp leaf, noVisit(extracted pre-filter)]` — with the only assumption about the regexp ENGINE that a
+    verdict "matches" is a match in the semantics `Rx.M`: `Search` returns exactly the live documents on which the
+    engine's verdict is true (`expected` of Spec.lean), i.e. the pre-filter, the iterators, staged evaluation, nextDoc,
+    pruning and the document loop together lose nothing and add nothing. -/
+theorem C01_search_exact_regexp (ctx : Ctx) (hw : ctx.WF) (ci : Bool) (r : Rx) (P : MT) (k : Option Bool)
+    (w : Bool) (bits : List Bool) (fd : Bool) (id : Nat) (ev fo : Bool)
+    (h0 : (MT.and k (.cons (.re w false bits fd id ev fo) (.cons (.noVisit P) .nil))).OkF ctx 0)
+    (hc : Corr (r.extract (!ci)).tree P)
+    (heng : ∀ d, d < ctx.live.length → bits.getD d false = true → r.matchesText ci (ctx.text false d)) :
+    match search ctx (MT.and k (.cons (.re w false bits fd id ev fo) (.cons (.noVisit P) .nil))) with
+    | Option.none => ∀ d, d < ctx.live.length → ctx.live.getD d false = true →
+        (MT.and k (.cons (.re w false bits fd id ev fo) (.cons (.noVisit P) .nil))).ref ctx d = false
+    | some o => o.res = expected ctx (MT.and k (.cons (.re w false bits fd id ev fo) (.cons (.noVisit P) .nil))) ∧
+        o.panicked = false := by
+  apply C01_search_exact_given_extraction ctx hw _ h0
+  intro d hd _
+  simp only [semF, MT.sem, MTs.semAll, MT.ref, MTs.refAll, Bool.and_true]
+  cases hb : bits.getD d false with
+  | false => rfl
+  | true =>
+    have hP : P.OkF ctx 0 := h0.2.1
+    have := prefilter_sound ctx 0 d ci r P hc hP (heng d hd hb)
+    simp only [semF] at this
+    simp [this]
+
+/-! non-vacuity: the regexp `abc.*cde` as a syntax tree; its extraction is the same-line node over "abc" and "cde";
+    it matches "abc cde" (document 0 of `exCtxA`), and `exTreeA`'s pre-filter corresponds to the extracted tree -/
+def exRx : Rx := .cat (.cons (.lit [97, 98, 99] false) (.cons (.star .anyNotNL) (.cons (.lit [99, 100, 101] false) .nil)))
+example : (exRx.extract true).tree = .andLine [.sub [97, 98, 99] true, .sub [99, 100, 101] true] ∧
+    (exRx.extract true).isEq = false ∧ (exRx.extract true).singleLine = true := by
+  simp [exRx, Rx.extract, Rxs.extractAll, Lit.isBrute]
+example : exRx.matchesText false (exCtxA.text false 0) := by
+  refine ⟨0, 7, 3, ?_, 4, ?_, 7, ?_, rfl, by decide⟩
+  · refine ⟨rfl, by decide, fun k hk => ?_⟩
+    have : k = 0 ∨ k = 1 ∨ k = 2 := by simp at hk; omega
+    rcases this with e | e | e <;> subst e <;> decide
+  · exact ⟨by decide, StarM.step 3 4 4 ⟨rfl, by decide, by decide⟩ (StarM.refl 4)⟩
+  · refine ⟨rfl, by decide, fun k hk => ?_⟩
+    have : k = 0 ∨ k = 1 ∨ k = 2 := by simp at hk; omega
+    rcases this with e | e | e <;> subst e <;> decide
+example : Corr (exRx.extract true).tree (.andLine Option.none Option.none
+    (.cons (.sub (mkSub exCtxA false [97, 98, 99] 0 0)) (.cons (.sub (mkSub exCtxA false [99, 100, 101] 0 0)) .nil))) := by
+  simp [exRx, Rx.extract, Rxs.extractAll, Lit.isBrute, Corr, CorrAll, mkSub, leafPat]
 
 /-! non-vacuity: a shard of 5 documents (document 3 dead), tree `and[doc-predicate, not(regexp verdicts), or[branch, none]]` -/
 def exCtx : Ctx := ⟨[[97], [98], [99], [100], [101]], [[], [], [], [], []], [true, true, true, false, true]⟩
